@@ -1,6 +1,7 @@
 """C06 — an npm resolution graph is a valid, loadable node_modules installation."""
 import json
 import os
+import re
 
 import lib
 from lib import sx, parse_sx
@@ -48,6 +49,7 @@ MANIFEST = dict(
 
 NRUNS = 3
 TIMEOUT = '("timeout")'
+DIVERGED = '("diverged")'
 
 # ----------------------------------------------------------------------------- generator
 
@@ -71,7 +73,22 @@ def gen_range(rng, target_versions):
     W = vparts(w)
     kind = rng.choice(["exact", "caret", "caret", "tilde", "ge", "lt", "gelt", "xmajor", "xminor", "major", "minor",
                        "star", "star", "empty", "hyphen", "union", "le", "gt", "eq", "latest", "tag", "notag",
-                       "unsat", "pre", "garbage", "caretv", "spaces"])
+                       "unsat", "pre", "garbage", "caretv", "spaces",
+                       "pessimistic", "starpart", "bigx", "vprefix", "ltpre", "lepre", "union3"])
+    if kind == "pessimistic":
+        return "~>%d.%d.%d" % (M, m, p)
+    if kind == "starpart":
+        return rng.choice(["%d.*" % M, "%d.%d.*" % (M, m)])
+    if kind == "bigx":
+        return rng.choice(["%d.X" % M, "%d.%d.X" % (M, m)])
+    if kind == "vprefix":
+        return rng.choice(["v%d.%d.%d" % (M, m, p), ">=v%d.%d.%d" % (M, m, p), "^v%d.%d.%d" % (M, m, p)])
+    if kind == "ltpre":
+        return rng.choice(["<%d.%d.%d-beta.2" % (M, m, p), "<%d.0.0-0" % (M + 1), ">=%d.0.0 <%d.0.0-rc.1" % (M, M + 1)])
+    if kind == "lepre":
+        return rng.choice(["<=%d.%d.%d-alpha" % (M, m, p), "<=%d.%d.%d-rc.1" % (M, m, p)])
+    if kind == "union3":
+        return "^%d.%d.%d || ~%d.%d.%d || %d.x" % (M, m, p, W[0], W[1], W[2], max(M, W[0]) + 1)
     if kind == "exact":
         return v
     if kind == "caret":
@@ -178,15 +195,20 @@ def gen_universe(rng, K, with_derived, with_alias):
             rel = sorted([v for v in vs if "-" not in v], key=vparts)
             tagged = rel[-1] if (rel and rng.random() < 0.6) else rng.choice(vs)
         nxt = rng.choice(vs) if rng.random() < 0.25 else None
+        # some packages are mostly deprecated and tag most of their versions: versions whose attribute sets
+        # have the same keys and different values (the resolver compares attribute sets when it looks for latest)
+        heavy = rng.random() < 0.15
         for v in vs:
             a = []
-            if rng.random() < 0.18:
+            if rng.random() < (0.7 if heavy else 0.18):
                 a.append([K.Blocked, b""])
             tags = []
             if v == tagged:
                 tags.append("latest")
             if v == nxt:
                 tags.append(rng.choice(["next", "beta"]))
+            elif heavy and v != tagged and rng.random() < 0.6:
+                tags.append(rng.choice(["next", "beta", "lts", "old"]))
             if tags or rng.random() < 0.08:
                 # decoys: tags that merely contain the text of a real tag, before or after it
                 if rng.random() < 0.3:
@@ -230,6 +252,17 @@ def gen_universe(rng, K, with_derived, with_alias):
                     # a name listed in bundleDependencies carries the range of its dependencies entry
                     rs2 = rs if "bundle" in (sec, other) else gen_range(rng, tv)
                     reqs.append((target, rs2, dep_type(K, other, alias)))
+            if with_alias and reqs and rng.random() < 0.08:
+                # one key in two sections of a package.json: "x": "1" in dependencies and "x": "npm:y@2" in
+                # optionalDependencies (or the other way round) are two requirements loaded by one name
+                plain = [q for q in reqs if not any(kk == K.KnownAs for kk, _ in q[2]) and not q[2]]
+                if plain:
+                    q = rng.choice(plain)
+                    other = rng.choice(allnames)
+                    rs = gen_range(rng, pkgs.get(other, []))
+                    while rs in UNPARSABLE:
+                        rs = gen_range(rng, pkgs.get(other, []) or ["1.0.0"])
+                    reqs.append((other, rs, dep_type(K, "opt", q[0])))
             out.append((v, attrs[(n, v)], reqs))
         uni[n] = out
     if with_derived:
@@ -273,6 +306,19 @@ def add_bundles(rng, K, uni, pkgs):
         uni[n][i] = (v, a, reqs)
 
 
+def template_universes():
+    """one universe with a dependency cycle and one with a diamond conflict (always run)"""
+    cyc = {"r": [("1.0.0", [], [("a", "^1.0.0", [])])],
+           "a": [("1.0.0", [], [("b", "1.x", [])])],
+           "b": [("1.0.0", [], [("c", "*", [])])],
+           "c": [("1.0.0", [], [("a", ">=1.0.0", []), ("r", "1", [])])]}
+    dia = {"r": [("1.0.0", [], [("a", "1", []), ("b", "1", [])])],
+           "a": [("1.0.0", [], [("c", "^1.0.0", [])])],
+           "b": [("1.0.0", [], [("c", "^2.0.0", []), ("a", "*", [])])],
+           "c": [("1.0.0", [], []), ("1.1.0", [], []), ("2.0.0", [], [("a", "1.0.0", [])])]}
+    return [("cycle", cyc, ("r", "1.0.0")), ("diamond", dia, ("r", "1.0.0"))]
+
+
 def universe_sx(uni):
     return sx([[n.encode(), [[v.encode(), a, [[dn.encode(), dv.encode(), dt] for dn, dv, dt in reqs]]
                               for v, a, reqs in vs]] for n, vs in uni.items()])
@@ -313,9 +359,22 @@ def split_rec(line):
 
 
 STAT_KEYS = ["tree_nodes", "max_depth", "nested", "bundled_nodes", "alias_entries", "graph_nodes", "edges",
-             "gerr_items", "requirements", "edge:selector", "edge:reuse", "sat:range", "sat:tag", "sat:star", "sat:slot",
+             "gerr", "requirements", "edge:selector", "edge:reuse", "sat:range", "sat:tag", "sat:star", "sat:slot",
              "sat:bundled", "pick:latest", "pick:latest-prerelease", "skipped:lookup_dupname", "pick:highest", "pick:skip-deprecated", "pick:all-deprecated",
-             "nodeerr:1", "nodeerr:2", "nodeerr:3"]
+             "nodeerr", "cycle", "diamond", "calls", "retried"]
+MARK = ' "|" '      # what follows in a printed observable is diagnostic and not compared
+
+
+def compared(line):
+    return line.split(MARK, 1)[0]
+
+
+def same(x, y):
+    """the tie compares graph and install tree only; a resolution the Go side had to cut off is not judged"""
+    return compared(x) == compared(y) or x in (TIMEOUT, DIVERGED)
+
+
+FLAGS = re.compile(r"\((\d) (\d) (\d) (\d)\)\)$")
 
 
 def rec_case(usx, root):
@@ -365,9 +424,25 @@ def run(ctx):
         b = min(batch, n_uni - done)
         run_batch(ctx, rng, K, classes, b, max(1, n_mut * b // n_uni), timeouts, done)
         done += b
-    if timeouts:
-        ctx.notes.append("resolutions cut off by the context deadline (the install loop did not finish; see N-C06-3): "
-                         "%d roots; first: %s" % (ctx.dist.get("root:timeout", 0), timeouts[0][:300]))
+    d = ctx.dist
+    roots = sum(v for k, v in d.items() if k.startswith("root:"))
+    if d.get("root:diverged"):
+        ctx.notes.append("resolutions cut off after %d client calls (the install loop does not terminate; N-C06-3): %d roots "
+                         "(universes with aliases %d, with derived packages and no alias %d, with neither %d); first: %s"
+                         % (10000, d["root:diverged"], d.get("diverged:alias", 0), d.get("diverged:derived", 0),
+                            d.get("diverged:plain", 0), timeouts[0][:300] if timeouts else ""))
+    ctx.extra["max_client_calls_of_a_finished_resolution"] = MAXCALLS[0]
+    ctx.extra["share_under_C06_unique_name"] = round(d.get("thm:unique_name", 0) / max(1, d.get("thm:cases", 0)), 3)
+    ctx.extra["share_under_C06_lookup_partial"] = round(d.get("thm:lookup_partial", 0) / max(1, d.get("thm:cases", 0)), 3)
+    if d.get("root:timeout", 0) > 0.02 * roots:
+        raise lib.BuildError("more than 2 %% of the roots (%d of %d) exceeded the 4 s deadline without exhausting the "
+                             "call budget: the machine is too loaded to judge" % (d["root:timeout"], roots), "")
+    for what in ("cycle", "diamond"):
+        if not d.get("template:" + what):
+            raise lib.BuildError("generator degenerate: the %s template universe did not produce a %s" % (what, what), "")
+
+
+MAXCALLS = [0]
 
 
 def oracle_only(ctx):
@@ -377,7 +452,7 @@ def oracle_only(ctx):
 
 
 def run_batch(ctx, rng, K, classes, n_uni, n_mut, timeouts, base, correspond=True):
-    unis, cases, meta = [], [], []
+    unis, cases, meta, templates = [], [], [], {}
     for ui in range(n_uni):
         with_derived = rng.random() < 0.15
         with_alias = rng.random() < 0.45
@@ -390,24 +465,34 @@ def run_batch(ctx, rng, K, classes, n_uni, n_mut, timeouts, base, correspond=Tru
         for r in roots:
             cases.append(rec_case(usx, r))
             meta.append((ui, r))
+    if base == 0:
+        for what, uni, root in template_universes():
+            unis.append((uni, universe_sx(uni), False, False))
+            cases.append(rec_case(unis[-1][1], root))
+            meta.append((len(unis) - 1, root))
+            templates[len(cases) - 1] = what
     ctx.count("universes", n_uni)
     ctx.count("universes:with_derived", sum(1 for u in unis if u[2]))
     ctx.count("universes:with_alias", sum(1 for u in unis if u[3]))
     out = ctx.impl("npm_rec", cases)
 
     table_cases, obs1 = [], []
-    for (ui, root), line, rc in zip(meta, out, cases):
+    for ci, ((ui, root), line, rc) in enumerate(zip(meta, out, cases)):
         verdict, case_text, obs = split_rec(line)
         status, has_derived, viols, stats = verdict
         status = status.decode()
         st = dict(zip(STAT_KEYS, stats))
         ctx.count("root:" + status)
+        MAXCALLS[0] = max(MAXCALLS[0], st.pop("calls") if status in ("ok", "err") else st.pop("calls") * 0)
         for k, v in st.items():
             if v:
                 ctx.count(k, v)
+        if ci in templates and st[templates[ci]]:
+            ctx.count("template:" + templates[ci])
         if status == "ok":
             interesting = (st["nested"] > 0 or st["alias_entries"] > 0 or st["bundled_nodes"] > 0 or
-                           (st["edge:reuse"] > 0 and (st["nodeerr:1"] + st["nodeerr:2"] + st["nodeerr:3"] > 0 or
+                           st["cycle"] > 0 or st["diamond"] > 0 or
+                           (st["edge:reuse"] > 0 and (st["nodeerr"] > 0 or
                                                       st["pick:latest"] + st["pick:skip-deprecated"] > 0)))
             if interesting:
                 ctx.nontriv((base + ui, root))
@@ -425,10 +510,12 @@ def run_batch(ctx, rng, K, classes, n_uni, n_mut, timeouts, base, correspond=Tru
                     ctx.violations[-1]["input"] = {"kind": "npm_rec", "arg": rc[:200] + "..."}
             else:
                 ctx.count("violations_not_stored")
-        if status == "timeout":
-            # the install loop was still running when the context expired (non-termination is not part of C06)
-            if len(timeouts) < 3:
-                timeouts.append(rc)
+        if status in ("timeout", "diverged"):
+            # the install loop was cut off (non-termination is not part of C06)
+            if status == "diverged":
+                ctx.count("diverged:" + ("alias" if unis[ui][3] else "derived" if unis[ui][2] else "plain"))
+                if len(timeouts) < 3:
+                    timeouts.append(rc)
             continue
         table_cases.append(case_text)
         obs1.append(obs)
@@ -436,11 +523,20 @@ def run_batch(ctx, rng, K, classes, n_uni, n_mut, timeouts, base, correspond=Tru
     if not correspond:
         return
     # correspondence on the recorded tables
-    same = lambda x, y: x == y or x == TIMEOUT     # a loaded machine may expire the 400 ms budget
     impl2, model2 = ctx.correspond("npm", table_cases, label="npm:recorded", compare=same)
+    for y in model2:
+        # the hypotheses of C06_unique_name / C06_lookup_partial, evaluated by the model on the recorded table
+        m = FLAGS.search(y)
+        if m:
+            nd, na, mn, un = (c == "1" for c in m.groups())
+            ctx.count("thm:cases")
+            ctx.count("thm:unique_name", nd)
+            ctx.count("thm:lookup_partial", nd and na and mn and un)
+            for k, f in (("no_derived", nd), ("no_alias", na), ("name_faithful", mn), ("distinct_names", un)):
+                ctx.count("hyp:" + k, f)
     bad = 0
     for ct, o1, o2 in zip(table_cases, obs1, impl2):
-        if o1 != o2 and o2 != TIMEOUT:
+        if compared(o1) != compared(o2) and o2 not in (TIMEOUT, DIVERGED):
             bad += 1
             if bad <= 5:
                 ctx.divergence("npm (table client does not replay the recording)", ct, o2, o1)
